@@ -637,7 +637,19 @@ def gen_table(relfile, name, cname, cnt, static=True, asenum=False):
     src = read_src(relfile)
     # find `... name[...] = { ... };` or `... name = value;` (qualified names allowed)
     m = None
-    for mc in re.finditer(r'(?:^|[;}\n])([^;{}#]*?\b(?:\w+::)*%s\s*((?:\[[^\]]*\])*)\s*=\s*)' % re.escape(name), src):
+    # (one regex over the whole file backtracks for ~25 s on XMLChar.cpp: look for `name [..] =` first, then apply
+    #  the same pattern to that statement's prefix only -- same matches, in the same order)
+    full = re.compile(r'(?:^|[;}\n])([^;{}#]*?\b(?:\w+::)*%s\s*((?:\[[^\]]*\])*)\s*=\s*)' % re.escape(name))
+
+    def candidates():
+        for occ in re.finditer(r'\b%s\s*(?:\[[^\]]*\])*\s*=\s*' % re.escape(name), src):
+            ws = occ.start()
+            while ws > 0 and src[ws - 1] not in ';{}#':
+                ws -= 1
+            mm = full.search(src, max(ws - 1, 0), occ.end())
+            if mm:
+                yield mm
+    for mc in candidates():
         # a definition has a type in front of the (possibly qualified) name; `name[i] = ...;` inside a function is an assignment
         if re.sub(r'\b(?:\w+::)*%s\b.*' % re.escape(name), '', mc.group(1), flags=re.S).strip():
             m = mc
